@@ -29,7 +29,10 @@ FILES = {
     "evse": "acnportal/acnsim/models/evse.py",
     "ev": "acnportal/acnsim/models/ev.py",
     "battery": "acnportal/acnsim/models/battery.py",
+    # a subclass WITHOUT its own _to_dict/_from_dict (inherits ChargingNetwork's): reported separately
+    "stochastic": "acnportal/contrib/acnsim/network/stochastic_network.py",
 }
+SUBCLASSES_WITHOUT_SERIALISER = ["StochasticNetwork"]
 CLASSES = ["Simulator", "EventQueue", "Event", "EVEvent", "PluginEvent", "UnplugEvent", "RecomputeEvent",
            "ChargingNetwork", "BaseEVSE", "EVSE", "DeadbandEVSE", "FiniteRatesEVSE", "EV", "Battery",
            "Linear2StageBattery"]
@@ -625,6 +628,23 @@ def _generate(repo):
         info.append(dict(name="serial_" + c, file=tab.classes[c]["file"], qual=c + "._to_dict/_from_dict",
                          line=dfn.lineno, end_line=rfn.end_lineno,
                          fingerprint=fingerprint(dfn) + fingerprint(rfn)))
+    for c in SUBCLASSES_WITHOUT_SERIALISER:
+        if c not in tab.classes:
+            raise Untranslatable("class %s not found" % c)
+        st = tab.state_attrs(c)
+        du, (downer, dfn), rk = dumped(tab, c)
+        re_, (rowner, rfn) = restored(tab, c)
+        lines.append("(* %s  (%s): no _to_dict/_from_dict of its own; it uses %s._to_dict and %s._from_dict. *)" % (
+            c, tab.classes[c]["file"], downer, rowner))
+        lines.append("Definition state_%s : list string := %s." % (c, clist(cstr(a) for a in st)))
+        lines.append("Definition dumped_%s : list (string * list string) := %s." % (
+            c, clist("(%s, %s)" % (cstr(k), clist(cstr(x) for x in v)) for k, v in du.items())))
+        lines.append("Definition restored_%s : list (string * list string) := %s." % (
+            c, clist("(%s, %s)" % (cstr(k), clist(cstr(x) for x in v)) for k, v in re_.items())))
+        lines.append("")
+        info.append(dict(name="serial_" + c, file=tab.classes[c]["file"], qual=c,
+                         line=tab.classes[c]["node"].lineno, end_line=tab.classes[c]["node"].end_lineno,
+                         fingerprint=fingerprint(tab.classes[c]["node"])))
     lines.append("Definition serial_classes : list (string * (list string * list (string * list string) * list (string * list string))) :=\n  %s." % clist(table))
     lines.append("")
     rr, methods = run_reads(tab)
